@@ -11,3 +11,7 @@ import TsVerif.C08.Props
 #print axioms TsVerif.C08.edit_isolated
 #print axioms TsVerif.C08.delete_isolated
 #print axioms TsVerif.C08.copy_isolated
+#print axioms TsVerif.C08.rc_invariant_reparse
+#print axioms TsVerif.C08.reparse_isolated
+#print axioms TsVerif.C08.interleaving_eq_sequential_counts
+#print axioms TsVerif.C08.no_lost_update_counts
